@@ -185,6 +185,25 @@ CLAIMED = {
                   "symbolic-schedule bounded model checking of the lazycompile wrapper in z3 LIA", ref="5 C12"),
 }
 
+ADDED = {
+    "C01": " Also long series (n = 140; zero-weight runs of 40-75 steps at either end; thorough to n = 300) with y symbolic at four samples; "
+           "the replayer checks the exact-rational clause by running the interpreted source on Fractions.",
+    "C02": " Missing cells may be encoded partly as placeholder and partly as NaN / inf; pixels below the minimum valid count with non-finite cells.",
+    "C04": " Exactly two / three valid cells on short series; an lc raster may not lose its labels before apply_ufunc.",
+    "C05": " Accessor dispatch is decided per apply_ufunc call under its path guard with p symbolic.",
+    "C07": " Numba's unstable argsort is a contract (ties in either order); float ufuncs on 8/16-bit integer arrays are single precision "
+           "(narrow-arithmetic obligations).",
+    "C08": " spi's nodata resolution (argument wins, ANY value incl. 0; else attribute; else ValueError) with argument and attribute symbolic.",
+    "C10": " mktrend accessor dispatch for any declared nodata incl. 0; the replayer has a ladder of integer series closest to the 5 % boundary.",
+    "C11": " Every accessor attribute element-wise equal to the scalar class for any time of day; comparisons raise nothing.",
+    "C14": " Observations of either sign in the grouped SPI driver (internal scratch cells), prange race obligations of the tyx driver.",
+    "C16": " The accessor hands zone rasters of every integer dtype to the kernel with values and zone nodata intact (symbolic over the dtype range).",
+    "C17": " Explicit nodata argument wins over a different attribute (both symbolic); each window's term may mention only its own cells.",
+    "C18": " croo with the time dimension in last / middle position.",
+    "C19": " Histories on one object: an earlier aggregation, the axis relabelled in place, then the call under test.",
+    "C20": " No gufunc argument may be declared with a fixed memory layout.",
+}
+
 NOT_APPLICABLE = {
     "C13": "Compares Numba/LLVM machine code (incl. cython_special pointers) with the interpreter; translating that IR "
            "(floating point throughout) to SMT is out of reach with the installed tools.",
@@ -207,7 +226,7 @@ def main():
                 "evidence_file": f"/verif/evidence/{pid}.json",
                 "replay_cmd_template": f"./check {pid} --replay {{path}}",
                 "engine": "pysym+z3",
-                "level_claimed": {"category": "model_checking", "text": c["text"], "design_ref": c["ref"]},
+                "level_claimed": {"category": "model_checking", "text": c["text"] + ADDED.get(pid, ""), "design_ref": c["ref"]},
                 "level_note": c["note"],
                 "technique": c["technique"],
             })
